@@ -982,6 +982,9 @@ impl Property for C05 {
     fn run(&self, case: &Case) -> CaseResult {
         run_case(case)
     }
+    fn known_signature(&self, case: &Case) -> Option<String> {
+        known_shape(case)
+    }
     fn extra(&self, _tier: Tier, _seed: u64) -> Result<serde_json::Value, (String, Case)> {
         // PiecewiseMergeJoin: the four unsupported join types are rejected cleanly at construction
         let mut n = 0;
@@ -1025,6 +1028,21 @@ impl Property for C05 {
         }
         Ok(serde_json::json!({ "piecewise_unsupported_types_rejected_cleanly": n }))
     }
+}
+
+/// Shapes of the recorded (open) findings — see /verif/known_findings.json. Both concern the
+/// nested-loop join's memory-limited spill fallback, which can only be entered under a memory limit.
+fn known_shape(case: &Case) -> Option<String> {
+    if case.op != Op::NestedLoop || case.mem.is_none() {
+        return None;
+    }
+    if matches!(case.jt, JT::Right | JT::Full | JT::RightSemi | JT::RightAnti | JT::RightMark) {
+        return Some("nlj-spill-fallback:right-side-emission-skipped".into());
+    }
+    if case.right.parts > 1 && matches!(case.jt, JT::Left | JT::LeftSemi | JT::LeftAnti | JT::LeftMark) {
+        return Some("nlj-spill-fallback:multi-right-partitions:left-emitting".into());
+    }
+    None
 }
 
 pub fn run_case(case: &Case) -> CaseResult {
